@@ -35,7 +35,7 @@ def classify(direction, m, what):
 
 def devinfo_fits(m):
     """a device-identification response is a message of the protocol only if its objects fit one PDU"""
-    return m['t'] != 'readDeviceInfo' or sum(2 + len(v) for _, vs in m['information'] for v in vs) <= 246
+    return 'information' not in m or sum(2 + len(v) for _, vs in m['information'] for v in vs) <= 246
 
 
 def in_range(direction, m):
